@@ -17,7 +17,8 @@ contract(M + ".render_blocks",
          ensures=dict(SN), exc_ensures=dict(SN),
          raises_any=True, raises=None,
          uses=[M + ".render_blocks_", M + ".join_unicode"],
-         returns=Opaque())
+         # callers treat the rendering as text: '' + result does not raise (assumption, listed)
+         returns=Opaque(types={'str': True}))
 
 
 def _rb__effects(E, env, outcome):
